@@ -5,7 +5,7 @@
    applied patches. *)
 From Coq Require Import List ZArith NArith Bool Lia Arith.
 Import ListNotations.
-From RQ Require Import Base Apply Parser Quilt ListFacts WriterProofs QuiltProofs TreeRollback FreshInode FaultProofs.
+From RQ Require Import Base Apply Parser Quilt ListFacts WriterProofs QuiltProofs TreeRollback NameSafety FreshInode FaultProofs.
 Local Open Scope N_scope.
 
 Definition nkey (e : bytes * Quilt.mfile) : npath := normalize (fst e).
@@ -81,4 +81,39 @@ Proof.
   { eapply apply_series_loaded; [exact Hroot|exact Ha|]. intros k0 m0. discriminate. }
   apply (Hl k m); [|assumption]. apply in_ov_get; [|assumption].
   apply (nodup_map_inv normalize). rewrite map_map. exact Hnd.
+Qed.
+
+(* ... and the hypothesis "different names, different files" holds for every overlay the apply loop builds: its
+   keys are the canonical spellings of names of accepted patches (NameSafety) *)
+Theorem push_saved_tree_closed cfg db series fs fs1 st n rejs dm cl fs2 cl' :
+  is_file fs [] = false ->
+  apply_series cfg db {| a_applied := []; a_files := [] |} 0 series fs = (fs1, ROk (st, n, rejs)) ->
+  save_all dm (a_files st) cl fs1 = (fs2, ROk cl') ->
+  (forall k m, In (k, m) (a_files st) ->
+     if deleted m then is_file fs2 (normalize k) = false
+     else exists md, lookup_file (normalize k) (fs_files fs2) = Some {| f_data := concat_lines (content m); f_mode := md |}) /\
+  (forall q, ~ In q (map nkey (a_files st)) -> lookup_file q (fs_files fs2) = lookup_file q (fs_files fs)).
+Proof.
+  intros Hroot Ha Hs.
+  assert (Hst : st_ok {| a_applied := []; a_files := [] |}).
+  { split; [split; [intros k m []|constructor]|constructor]. }
+  destruct (apply_series_names cfg db series _ 0%nat fs fs1 st n rejs Ha Hst) as [[Hov _] _].
+  eapply push_saved_tree; [exact Hroot|exact Ha| |exact Hs].
+  apply keys_are_different_files. exact Hov.
+Qed.
+
+(* C15 without the hypothesis: the save phase of a push only unlinks and freshly creates files named by the pushed patches *)
+Theorem push_saves_fresh_closed cfg db series fs fs1 st n rejs dm cl fs2 r :
+  is_file fs [] = false ->
+  apply_series cfg db {| a_applied := []; a_files := [] |} 0 series fs = (fs1, ROk (st, n, rejs)) ->
+  save_all dm (a_files st) cl fs1 = (fs2, r) ->
+  exists added, fs_log fs2 = fs_log fs1 ++ added /\
+                all_ops added (fun q => In q (map (fun e => normalize (fst e)) (a_files st))).
+Proof.
+  intros Hroot Ha Hs.
+  assert (Hst : st_ok {| a_applied := []; a_files := [] |}).
+  { split; [split; [intros k m []|constructor]|constructor]. }
+  destruct (apply_series_names cfg db series _ 0%nat fs fs1 st n rejs Ha Hst) as [[Hov _] _].
+  eapply push_saves_fresh; [exact Hroot|exact Ha| |exact Hs].
+  apply keys_are_different_files. exact Hov.
 Qed.
